@@ -36,10 +36,13 @@ def lapse30(t_kelvin):
 def isa_cell(cell):
     import py_ballisticcalc as pb
     U = pb.Unit
-    hft = cell
+    hft, prefs = cell if isinstance(cell, list) else (cell, None)
     T, P, dr, a = isa(hft)
     out = []
     worst = 0.0
+    if prefs:
+        # the standard atmosphere is the ISA whatever units are preferred (factories that hand bare numbers on would read them in these units)
+        pb.PreferredUnits.set(**{k: getattr(U, v) for k, v in prefs.items()})
     for name, at in (('icao', pb.Atmo.icao(U.Foot(hft))), ('standard', pb.Atmo.standard(U.Foot(hft))),
                      ('Atmo(altitude)', pb.Atmo(U.Foot(hft))), ('icao(meters)', pb.Atmo.icao(U.Meter(hft * FT)))):
         got = {'temperature': at.temperature >> U.Kelvin, 'pressure': (at.pressure >> U.hPa) * 100, 'density ratio': at.density_ratio,
@@ -59,6 +62,9 @@ def isa_cell(cell):
         same = pb.Atmo(U.Foot(hft), dry.pressure, dry.temperature, h)
         if not wet.density_ratio < dry.density_ratio or abs(wet.density_ratio - same.density_ratio) > 1e-12 * same.density_ratio:
             out.append({'msg': f'Atmo.icao({hft} ft, humidity={h}) has density ratio {wet.density_ratio!r}; dry {dry.density_ratio!r}, Atmo with the standard values and that humidity {same.density_ratio!r}', 'key': None})
+    if prefs:
+        pb.PreferredUnits.defaults()
+        return {'v': [dict(v, msg=f'under preferred units {prefs}: ' + v['msg']) for v in out[:4]], 'n': 6, 'nt': [hft, sorted(prefs)]}
     # a bare number is that number in the preferred distance unit (yards) - and never the same thing as a quantity with the same raw number
     for label, arg, alt_ft in (('bare number (yards)', float(hft) / 3.0, float(hft)), ('Inch quantity with the same raw number', U.Inch(float(hft) / 3.0), hft / 36.0)):
         if not -1400 <= alt_ft <= 36000:
@@ -203,7 +209,7 @@ def vacuum(cell):
     return {'v': out[:2], 'n': 2, 'nt': cell if a0 != q else None}
 
 
-HOPS = ['q_near', 'q100', 'q5000', 'h0', 'h50', 'h100pct', 'h_bad', 'mk_other']
+HOPS = ['q_near', 'q100', 'q5000', 'h0', 'h50', 'h100pct', 'h_bad', 'mk_other', 'mk_bad']
 
 
 def history(cell):
@@ -227,6 +233,13 @@ def history(cell):
             # other atmosphere objects come and go (a vacuum, a hot station): none of this object's business
             pb.Vacuum(U.Foot(200), U.Celsius(-3)).get_density_factor_and_mach_for_altitude(4000.0)
             pb.Atmo(U.Foot(3000), U.InHg(27), U.Fahrenheit(99), 80).get_density_factor_and_mach_for_altitude(9000.0)
+        elif op == 'mk_bad':
+            # somebody else's constructor call is rejected (humidity out of range): none of this object's business either
+            try:
+                pb.Atmo(U.Foot(100), U.InHg(29), U.Fahrenheit(50), 120)
+                out.append({'msg': 'Atmo(humidity=120) accepted', 'key': None})
+            except ValueError:
+                pass
         elif op == 'h_bad':
             try:
                 st.humidity = 101
@@ -236,6 +249,11 @@ def history(cell):
         else:
             hum = {'h0': 0.0, 'h50': 0.5, 'h100pct': 100}[op]
             st.humidity = hum
+        if k != len(ops) - 1:
+            # judged after the LAST operation only: building the reference objects is itself library activity that would disturb the history
+            # (round 10: a class-level guard left set by a rejected constructor was cleared by the reference constructor); every prefix of
+            # every history is a cell of its own, so nothing is lost
+            continue
         if kind == 'vac':
             # a vacuum stays a vacuum whatever is done to the object: exactly zero density at the station and everywhere
             n += 1
@@ -317,4 +335,6 @@ def plan(tier):
     depth = 3 if tier == 'quick' else 4
     hs = [[kind, a0, list(ops)] for kind in ('std', 'hot', 'vac') for a0 in (0, 5000) for d in range(1, depth + 1) for ops in itertools.product(HOPS, repeat=d)]
     bl = [[p_, h_] for p_ in (25.0, 29.92, 31.0) for h_ in (0, 0.5, 80)]
+    pref_sets = [{'temperature': 'Celsius'}, {'temperature': 'Kelvin', 'pressure': 'hPa', 'distance': 'Meter'}, {'temperature': 'Rankin', 'pressure': 'PSI', 'distance': 'Foot', 'velocity': 'MPS'}]
+    alts = alts + [[h_, p_] for h_ in range(-1000, 36001, 1000 if tier == 'quick' else 250) for p_ in pref_sets]
     return [('bare_lines', bl), ('isa', alts), ('station', st), ('grid', gr), ('reject', [-1, -0.01, 100.01, 1e9, -1e-9, 101]), ('vacuum', vac), ('history', hs)]
